@@ -94,6 +94,7 @@ fn main() {
         "branchupd" => branchupd::run(seed, cases, &mut sink),
         "branchupd-firstleaf" => branchupd::first_leaf_scenario(&mut sink),
         "seek" => seek::run(seed, cases, &mut sink),
+        "seeker" => seek::seeker::run(seed, cases, &mut sink),
         "core-pp" => core_pp::run(seed, cases, &mut sink),
         "core-mp" => core_mp::run(seed, cases, &mut sink),
         "core-mp-corpus" => {
